@@ -5,21 +5,26 @@ from .c01 import fix_disagreements
 
 MODULES = ['DsdVerif.Props.C02']
 GEN_FILES = []
-THEOREM_NAMES = ['canon_mem_min', 'canon_rot_invariant', 'canon_eq_iff', 'identifiers_canon', 'identifiers_existing', 'turns_correct']
-THEOREMS = []
+THEOREM_NAMES = ['ckeyLt_irrefl', 'ckeyLt_trans', 'ckeyLt_total', 'ckeyLt_names_first', 'canon_mem_min', 'identifiers_total',
+                 'orbit_rotate', 'canon_rot_invariant', 'canon_eq_iff', 'identifiers_existing', 'keys_are_orbit_preserved', 'turns_correct']
+THEOREMS = ['Dsd.C02.' + t for t in THEOREM_NAMES]
 ASSUMPTIONS = [
     'ComplexS.identifiers is hand-modelled (Model/Objects.lean: complexIdentifiers = the loop with early exit on a registered rotation, '
     'minimum by (names, structure) under code-point lexicographic order); Python str/tuple ordering is modelled',
     'rotation theorems of C07 (rotate_period, rotateOnce_pairs) are used',
 ]
 MANIFEST = {
-    'text': 'Partial at this commit: the Lean model of ComplexS.identifiers + the metaclass is tied to the code by correspondence over '
-            'every well-formed structure up to a bounded size labelled over alphabets of 1-3 names, every rotation and every order of '
-            'first presentation (canonical form, turns, identity, refusal with `existing`); theorems about the canonical form present '
-            'at this commit are listed in the evidence; minimality, rotation-equivalence and hash/equality coherence are decided on the '
-            'real code by a brute-force oracle.',
+    'text': 'Full for the model: canon_mem_min (the canonical form is a rotation and no rotation is smaller, names first, structure '
+            'second; ckeyLt is a strict total order), canon_rot_invariant (it does not depend on the rotation supplied), canon_eq_iff '
+            '(equal exactly for rotation-equivalent descriptions), identifiers_existing (any rotation of a live complex resolves to that '
+            'object: returned when the name matches, SingletonError with existing = that object for an unnamed / differently named '
+            'request; the registry is unchanged), keys_are_orbit_preserved (a live complex is registered under exactly its rotations, '
+            'whatever else is registered), turns_correct (rotate^turns(canon) is the supplied description, also for rotationally '
+            'symmetric complexes), identifiers_total; for complexes of any size, using the C07 rotation theorems. Tied to '
+            'ComplexS.identifiers by correspondence over every structure up to a bounded size labelled over 1-3 names, every rotation, '
+            'every order of first presentation; minimality / equivalence / hash coherence also decided on the real code by brute force.',
     'note': 'Python tuple/str comparison is modelled as code-point lexicographic order; trusted base as in DESIGN.md section 3.',
-    'technique': 'Lean 4 model of canonical rotation + registry; correspondence check on (description, history) pairs; brute-force oracle',
+    'technique': 'Lean 4 proofs: strict total key order, orbit invariance from rotate_period, registry invariant; correspondence check on histories',
 }
 
 
